@@ -18,6 +18,12 @@ type c02Res struct {
 }
 
 func c02ConcBody(sch core.Schedule, total int64, nCallers, opsPer int, finishAt int64) {
+	c02ConcBodyParts(sch, total, nCallers, opsPer, finishAt, -1, 0)
+}
+
+// firstCount >= 0: the schedule is once(firstCount) at `start`, then parts whose tokens all
+// lie at finishAt (the parts in between have no tokens).
+func c02ConcBodyParts(sch core.Schedule, total int64, nCallers, opsPer int, finishAt int64, firstCount int64, start int64) {
 	res := make([][]c02Res, nCallers)
 	var wg sync.WaitGroup
 	for c := 0; c < nCallers; c++ {
@@ -39,6 +45,7 @@ func c02ConcBody(sch core.Schedule, total int64, nCallers, opsPer int, finishAt 
 	wg.Wait()
 	okCount := int64(0)
 	draws := int64(0)
+	atStart := int64(0)
 	for c := 0; c < nCallers; c++ {
 		last := int64(0)
 		sawZero := false
@@ -55,6 +62,12 @@ func c02ConcBody(sch core.Schedule, total int64, nCallers, opsPer int, finishAt 
 			draws++
 			if r.ok {
 				okCount++
+				if firstCount >= 0 {
+					vCheck("K6.token.at.its.part.start", r.t == start || r.t == finishAt)
+					if r.t == start && start != finishAt {
+						atStart++
+					}
+				}
 				vCheck("K3.no.token.after.left.zero", !sawZero)
 			} else {
 				vCheck("K4.finish.time", r.t == finishAt)
@@ -68,6 +81,9 @@ func c02ConcBody(sch core.Schedule, total int64, nCallers, opsPer int, finishAt 
 		exp = draws
 	}
 	vCheck("K1.exactly.once", okCount == exp)
+	if firstCount >= 0 && start != finishAt {
+		vCheck("K6.later.part.not.started.early", atStart <= firstCount)
+	}
 	vCheck("K3.left.after", int64(sch.Left()) == total-okCount)
 	vReach("end")
 }
@@ -87,7 +103,7 @@ func HarnessC02ConcTwoParts() {
 	}
 	t0 := vNondetTime("t0")
 	sch.Start(t0)
-	c02ConcBody(sch, n1+n2, 2, 3, vTimeNs(t0)+fin)
+	c02ConcBodyParts(sch, n1+n2, 2, 3, vTimeNs(t0)+fin, n1, vTimeNs(t0))
 }
 
 func HarnessC02ConcThreeCallers() {
